@@ -59,6 +59,109 @@ def versions_around_db():
     return out
 
 
+def evaluate_case(db, bl, peer, client):
+    """One (banner, peer, role) report from the real output(), checked clause by clause: returns (report, recognised, software, failures)."""
+    from ssh_audit.software import Software
+    from ssh_audit.algorithm import Algorithm
+    failures = []
+
+    def fail(kind, inp, observed, expected):
+        failures.append({'sig': {'kind': kind}, 'input': inp, 'observed': observed, 'expected': expected, 'how': 'harness/props/C13.py on the real output()'})
+    imp = rc.impl_report(peer, client=client, banner_line=bl)
+    sw = Software.parse(imp['banner'])
+    recognised = sw is not None and sw.product in ('OpenSSH', 'Dropbear SSH', 'libssh', 'TinySSH')
+    inp = {'banner': bl, 'peer': peer, 'client': client}
+    adv = {'kex': peer['kex'], 'key': peer['key'], 'enc': peer['encS'], 'mac': peer['macS']}
+    notes = {c: {x[0].split(' (')[0] if False else x[0]: x[1] for x in imp['algs'][c]} for c in rc.CATS}
+    # map shown -> name: strip the size suffix
+    byname = {c: {} for c in rc.CATS}
+    for c in rc.CATS:
+        shown_iter = iter(imp['algs'][c])
+        for n in adv[c]:
+            if n.strip() == '':
+                continue
+            shown, nts, _ = next(shown_iter)
+            byname[c].setdefault(n, nts)
+    recs = imp['recs']
+    seen_add, seen_rm = set(), set()
+    for key, names in recs.items():
+        lvl, act, cat = key.split('/')
+        for n in names:
+            if act in ('del', 'chg'):
+                seen_rm.add((cat, n))
+                nts = byname[cat].get(n)
+                if nts is None:
+                    fail('removal_of_unadvertised', dict(inp, rec=key, name=n), 'not advertised', 'advertised in that category')
+                    continue
+                has_f = any(l == 'fail' for l, _ in nts)
+                has_w = any(l == 'warn' for l, _ in nts)
+                if not (has_f or has_w):
+                    fail('removal_of_clean_algorithm', dict(inp, rec=key, name=n), nts, 'a failure or warning in the same report')
+                nw = sum(1 for l, _ in nts if l == 'warn')
+                if nw < 10 and (lvl == 'critical') != has_f:
+                    fail('critical_vs_failure', dict(inp, rec=key, name=n), {'level': lvl, 'notes': nts}, 'critical exactly when the algorithm has a failure')
+            else:
+                seen_add.add((cat, n))
+                if n in adv[cat]:
+                    fail('addition_of_advertised', dict(inp, rec=key, name=n), 'advertised', 'not advertised')
+                d = db[cat].get(n)
+                if d is None:
+                    fail('addition_of_unknown', dict(inp, rec=key, name=n), 'not in database', 'a database algorithm')
+                    continue
+                if (len(d) > 1 and d[1]) or (len(d) > 2 and d[2]):
+                    fail('addition_with_fail_or_warn', dict(inp, rec=key, name=n), d[1:3], 'no failure or warning')
+                if (cat == 'key' and ('-cert-' in n or n.startswith('sk-'))) or (cat == 'kex' and (n.startswith('ext-info-') or n.startswith('kex-strict-'))):
+                    fail('addition_of_cert_sk_pseudo', dict(inp, rec=key, name=n), n, 'never recommended')
+                if not recognised:
+                    fail('addition_for_unknown_software', dict(inp, rec=key, name=n), bl, 'no additions')
+                else:
+                    avail = False
+                    for v in (d[0][0] or '').split(',') if d[0] else []:
+                        prod, ver, cli = Algorithm.get_ssh_version(v)
+                        if ver and prod == sw.product and not cli and num_ge(sw.version, ver, sw, ver):
+                            avail = True
+                    if not avail:
+                        fail('addition_not_available_in_version', dict(inp, rec=key, name=n), {'versions': d[0], 'software': str(sw)}, 'available in the identified version')
+    both = seen_add & seen_rm
+    if both:
+        fail('recommended_both_ways', inp, sorted(both), 'never')
+    # completeness
+    if recognised:
+        for c in rc.CATS:
+            for n, nts in byname[c].items():
+                if not any(l in ('fail', 'warn') for l, _ in nts):
+                    continue
+                is_gss = c == 'kex' and n.startswith('gss-')
+                d = db[c].get(n)
+                if d is None:
+                    if is_gss and (c, n) not in seen_rm:
+                        key_ = n[:n.rindex('-')] + '-*'
+                        if key_ in db[c]:
+                            fail('gss_not_recommended_for_removal', dict(inp, name=n), nts, 'recommended for removal or change')
+                    continue
+                if n in imp['raw_suppress'] if 'raw_suppress' in imp else False:
+                    continue
+                known_in_version = (not d[0]) or d[0][0] is None
+                if not known_in_version:
+                    for v in d[0][0].split(','):
+                        prod, ver, cli = Algorithm.get_ssh_version(v)
+                        if ver and prod == sw.product and not cli and num_ge(sw.version, ver, sw, ver):
+                            known_in_version = True
+                outside_control = (c == 'kex' and n == 'diffie-hellman-group-exchange-sha256' and any('A bug in OpenSSH causes it to fall back' in t for _, t in nts))
+                if known_in_version and not outside_control and (c, n) not in seen_rm:
+                    # D36: in a client audit the Terrapin pass builds its "not enabled" suppression list from the client-to-server lists while the
+                    # report rates the server-to-client lists: a rated CBC / chacha20-poly1305 / -etm name that is missing from the other direction is suppressed
+                    fam = (c == 'enc' and (n.startswith('chacha20-poly1305') or n.endswith(('-cbc', '-cbc@openssh.org', '-cbc@ssh.com')) or n == 'rijndael-cbc@lysator.liu.se')) or \
+                          (c == 'mac' and n.endswith('-etm@openssh.com'))
+                    other = peer['encC'] if c == 'enc' else peer['macC'] if c == 'mac' else None
+                    if client and fam and other is not None and n not in other:
+                        failures.append({'sig': {'kind': 'rated_algorithm_not_recommended', 'class': 'client_audit_other_direction'}, 'input': dict(inp, category=c, name=n), 'observed': nts,
+                                         'expected': 'recommended for removal or change', 'how': 'harness/props/C13.py on the real output()'})
+                    else:
+                        fail('rated_algorithm_not_recommended', dict(inp, category=c, name=n), nts, 'recommended for removal or change')
+    return imp, recognised, sw, failures
+
+
 def run(ctx):
     from ssh_audit.software import Software
     from ssh_audit.algorithm import Algorithm
@@ -82,92 +185,17 @@ def run(ctx):
                 c = r.choice(rc.CATS)
                 peer[{'kex': 'kex', 'key': 'key', 'enc': 'encS', 'mac': 'macS'}[c]] = r.sample(list(db[c]), r.choice([1, len(db[c]) // 2, len(db[c])]))
                 peer['encC'], peer['macC'] = peer['encS'], peer['macS']
-            imp = rc.impl_report(peer, banner_line=bl)
-            sw = Software.parse(imp['banner'])
-            recognised = sw is not None and sw.product in ('OpenSSH', 'Dropbear SSH', 'libssh', 'TinySSH')
+            # a quarter of the peers are clients, half of those with different lists per direction (the report shows the server-to-client lists)
+            client = r.random() < 0.25
+            if client and r.random() < 0.6:
+                peer['encC'] = r.sample(list(db['enc']), r.randint(1, 6))
+                peer['macC'] = r.sample(list(db['mac']), r.randint(1, 6))
+            imp, recognised, sw, fs = evaluate_case(db, bl, peer, client)
+            failures.extend(fs)
+            inp = {'banner': bl, 'peer': peer, 'client': client}
             cov.add((bl, json.dumps(peer, sort_keys=True)), recognised, tags=['product:' + (sw.product if sw else 'none')],
                     sample={'banner': bl, 'recs': imp['recs']} if len(cov.samples) < 3 and imp['recs'] else None)
-            inp = {'banner': bl, 'peer': peer}
-            adv = {'kex': peer['kex'], 'key': peer['key'], 'enc': peer['encS'], 'mac': peer['macS']}
-            notes = {c: {x[0].split(' (')[0] if False else x[0]: x[1] for x in imp['algs'][c]} for c in rc.CATS}
-            # map shown -> name: strip the size suffix
-            byname = {c: {} for c in rc.CATS}
-            for c in rc.CATS:
-                shown_iter = iter(imp['algs'][c])
-                for n in adv[c]:
-                    if n.strip() == '':
-                        continue
-                    shown, nts, _ = next(shown_iter)
-                    byname[c].setdefault(n, nts)
-            recs = imp['recs']
-            seen_add, seen_rm = set(), set()
-            for key, names in recs.items():
-                lvl, act, cat = key.split('/')
-                for n in names:
-                    if act in ('del', 'chg'):
-                        seen_rm.add((cat, n))
-                        nts = byname[cat].get(n)
-                        if nts is None:
-                            fail('removal_of_unadvertised', dict(inp, rec=key, name=n), 'not advertised', 'advertised in that category')
-                            continue
-                        has_f = any(l == 'fail' for l, _ in nts)
-                        has_w = any(l == 'warn' for l, _ in nts)
-                        if not (has_f or has_w):
-                            fail('removal_of_clean_algorithm', dict(inp, rec=key, name=n), nts, 'a failure or warning in the same report')
-                        nw = sum(1 for l, _ in nts if l == 'warn')
-                        if nw < 10 and (lvl == 'critical') != has_f:
-                            fail('critical_vs_failure', dict(inp, rec=key, name=n), {'level': lvl, 'notes': nts}, 'critical exactly when the algorithm has a failure')
-                    else:
-                        seen_add.add((cat, n))
-                        if n in adv[cat]:
-                            fail('addition_of_advertised', dict(inp, rec=key, name=n), 'advertised', 'not advertised')
-                        d = db[cat].get(n)
-                        if d is None:
-                            fail('addition_of_unknown', dict(inp, rec=key, name=n), 'not in database', 'a database algorithm')
-                            continue
-                        if (len(d) > 1 and d[1]) or (len(d) > 2 and d[2]):
-                            fail('addition_with_fail_or_warn', dict(inp, rec=key, name=n), d[1:3], 'no failure or warning')
-                        if (cat == 'key' and ('-cert-' in n or n.startswith('sk-'))) or (cat == 'kex' and (n.startswith('ext-info-') or n.startswith('kex-strict-'))):
-                            fail('addition_of_cert_sk_pseudo', dict(inp, rec=key, name=n), n, 'never recommended')
-                        if not recognised:
-                            fail('addition_for_unknown_software', dict(inp, rec=key, name=n), bl, 'no additions')
-                        else:
-                            avail = False
-                            for v in (d[0][0] or '').split(',') if d[0] else []:
-                                prod, ver, cli = Algorithm.get_ssh_version(v)
-                                if ver and prod == sw.product and not cli and num_ge(sw.version, ver, sw, ver):
-                                    avail = True
-                            if not avail:
-                                fail('addition_not_available_in_version', dict(inp, rec=key, name=n), {'versions': d[0], 'software': str(sw)}, 'available in the identified version')
-            both = seen_add & seen_rm
-            if both:
-                fail('recommended_both_ways', inp, sorted(both), 'never')
-            # completeness
-            if recognised:
-                for c in rc.CATS:
-                    for n, nts in byname[c].items():
-                        if not any(l in ('fail', 'warn') for l, _ in nts):
-                            continue
-                        is_gss = c == 'kex' and n.startswith('gss-')
-                        d = db[c].get(n)
-                        if d is None:
-                            if is_gss and (c, n) not in seen_rm:
-                                key_ = n[:n.rindex('-')] + '-*'
-                                if key_ in db[c]:
-                                    fail('gss_not_recommended_for_removal', dict(inp, name=n), nts, 'recommended for removal or change')
-                            continue
-                        if n in imp['raw_suppress'] if 'raw_suppress' in imp else False:
-                            continue
-                        known_in_version = (not d[0]) or d[0][0] is None
-                        if not known_in_version:
-                            for v in d[0][0].split(','):
-                                prod, ver, cli = Algorithm.get_ssh_version(v)
-                                if ver and prod == sw.product and not cli and num_ge(sw.version, ver, sw, ver):
-                                    known_in_version = True
-                        outside_control = (c == 'kex' and n == 'diffie-hellman-group-exchange-sha256' and any('A bug in OpenSSH causes it to fall back' in t for _, t in nts))
-                        if known_in_version and not outside_control and (c, n) not in seen_rm:
-                            fail('rated_algorithm_not_recommended', dict(inp, category=c, name=n), nts, 'recommended for removal or change')
-            lines.append(rc.report_line(peer, False, imp['banner']))
+            lines.append(rc.report_line(peer, client, imp['banner']))
             expect.append((imp, inp))
     model = ctx.driver(lines) if ctx.driver_ok else []
     for line, m, (imp, inp) in zip(lines, model, expect):
@@ -192,13 +220,13 @@ def num_ge(a, b, sw, raw):
 def replay(obj):
     f = obj.get('failure', obj)
     inp = f['input']
-    imp = rc.impl_report(inp['peer'], banner_line=inp['banner'])
+    imp, recognised, sw, fs = evaluate_case(pg.master(), inp['banner'], inp['peer'], inp.get('client', False))
     print('recommendations:', json.dumps(imp['recs'])[:1500])
     if 'name' in inp:
         for c in rc.CATS:
             for shown, nts, _ in imp['algs'][c]:
                 if shown.split(' (')[0] == inp['name']:
                     print('notes of', inp['name'], ':', nts)
-    print('(see the failure record for the violated clause)')
-    print(json.dumps({k: f[k] for k in ('sig', 'observed', 'expected')})[:800])
-    return 1
+    same = [x for x in fs if x['sig'] == f['sig'] and x['input'].get('name') == inp.get('name')]
+    print('the recorded clause fails again: %s' % json.dumps({k: same[0][k] for k in ('sig', 'observed', 'expected')})[:800] if same else 'the recorded clause holds on this input')
+    return 1 if same else 0
